@@ -122,6 +122,13 @@ class DiscParallelExecution(CallableParallelExecution[StrKeyMapping, DisciplineD
                 and ExecutionStatistics.is_enabled
             ):
                 self._disciplines[0].execution_statistics.n_executions += len(inputs)  # type: ignore[operator] # checked with activate_counter
+            if len(self._disciplines) == 1 and len(inputs) == 1:
+                # A single discipline executed once: as for several disciplines,
+                # the discipline of the main process gets the data computed by the
+                # worker (with multiprocessing, the worker executes a copy).
+                output = ordered_outputs[0]
+                if output is not None:
+                    self._disciplines[0].io.data = output
         else:
             for disc, output in zip(self._disciplines, ordered_outputs):
                 # When the discipline in the worker failed, output is None.
